@@ -17,7 +17,7 @@ BUILD = os.path.join(VERIF, ".build")
 WORK = os.path.join(VERIF, ".work")
 BIN = os.path.join(BUILD, "sim.test")
 GOENV = dict(os.environ, GOFLAGS="-mod=mod", GOPROXY="off", GOSUMDB="off", GOTOOLCHAIN="local")
-JOBS = int(os.environ.get("VERIF_JOBS", "16"))
+JOBS = 16  # upper bound; see effective_jobs()
 
 sys.path.insert(0, os.path.join(VERIF, "bin"))
 from props import PROPS  # noqa: E402
@@ -30,12 +30,35 @@ def log(*a):
 def build():
     os.makedirs(BUILD, exist_ok=True)
     t0 = time.time()
-    p = subprocess.run(["go1.26.8", "test", "-c", "-tags", "verif", "-o", BIN, "."], cwd=SIM, env=GOENV,
+    # built beside the final name and renamed into place: several checks may build (and run the binary) at the same time
+    tmp = "%s.%d.tmp" % (BIN, os.getpid())
+    p = subprocess.run(["go1.26.8", "test", "-c", "-tags", "verif", "-o", tmp, "."], cwd=SIM, env=GOENV,
                        stdout=subprocess.PIPE, stderr=subprocess.STDOUT, text=True)
     if p.returncode != 0:
         log("BUILD FAILED (exit 2):\n" + p.stdout[-6000:])
+        try:
+            os.remove(tmp)
+        except OSError:
+            pass
         sys.exit(2)
+    os.replace(tmp, BIN)
     return time.time() - t0
+
+
+def spawn_with_retry(cmd, workdir, env, timeout):
+    """subprocess.run that waits when the machine is out of processes / threads (other checks running beside this one)."""
+    delay, waited = 0.2, 0.0
+    while True:
+        try:
+            return subprocess.run(cmd, cwd=workdir, env=env, stdout=subprocess.PIPE, stderr=subprocess.PIPE, timeout=timeout)
+        except (BlockingIOError, RuntimeError, OSError) as e:
+            if isinstance(e, OSError) and not isinstance(e, BlockingIOError) and e.errno not in (11, 12, 24):
+                raise
+            if waited > 300:
+                raise
+            time.sleep(delay)
+            waited += delay
+            delay = min(delay * 2, 5.0)
 
 
 def run_child(plan, workdir, keeplog=False, timeout=90, gomaxprocs="1"):
@@ -61,7 +84,7 @@ def run_child(plan, workdir, keeplog=False, timeout=90, gomaxprocs="1"):
             env["VERIF_KEEPLOG"] = "1"
         try:
             cmd = ["bash", "-c", "ulimit -v 6291456; exec '%s' -test.run '^TestChild$' -test.timeout 120s" % BIN]
-            p = subprocess.run(cmd, cwd=workdir, env=env, stdout=subprocess.PIPE, stderr=subprocess.PIPE, timeout=timeout)
+            p = spawn_with_retry(cmd, workdir, env, timeout)
             rc, out, err = p.returncode, p.stdout, p.stderr
         except subprocess.TimeoutExpired as e:
             return {"status": "timeout", "harness": "child exceeded %ds wall" % timeout, "plan": plan, "stats": {}, "probes": {},
@@ -126,6 +149,59 @@ def matches_known(known, prop, v):
     return None
 
 
+def parallel_map(fn, items, jobs):
+    """Runs fn over items on up to `jobs` threads; survives a machine that refuses new threads (falls back to fewer workers,
+    in the end to the calling thread)."""
+    import threading, queue
+    q = queue.Queue()
+    for i, it in enumerate(items):
+        q.put((i, it))
+    out = [None] * len(items)
+    errs = []
+
+    def worker():
+        while True:
+            try:
+                i, it = q.get_nowait()
+            except queue.Empty:
+                return
+            try:
+                out[i] = fn(it)
+            except Exception as e:  # noqa
+                errs.append(e)
+                out[i] = {"status": "harness_error", "harness": "driver: %r" % (e,), "plan": it if isinstance(it, dict) else None, "stats": {}, "probes": {}}
+
+    threads = []
+    for _ in range(max(1, jobs) - 1):
+        try:
+            t = threading.Thread(target=worker, daemon=True)
+            t.start()
+            threads.append(t)
+        except RuntimeError:
+            break
+    worker()
+    for t in threads:
+        t.join()
+    return out
+
+
+def effective_jobs():
+    j = int(os.environ.get("VERIF_JOBS", "0") or 0)
+    if j > 0:
+        return j
+    n = os.cpu_count() or 4
+    try:
+        load = os.getloadavg()[0]
+    except OSError:
+        load = 0
+    # other checks may be running beside this one: leave them room
+    if load > n * 1.25:
+        return max(4, n // 4)
+    if load > n * 0.75:
+        return max(6, n // 2)
+    return min(16, n)
+
+
 class Runner:
     def __init__(self, prop, tier, base_seed, runs, jobs):
         self.prop, self.tier, self.base_seed, self.runs, self.jobs = prop, tier, base_seed, runs, jobs
@@ -153,14 +229,7 @@ class Runner:
         return res
 
     def run_all(self, deadline=None):
-        results = []
-        with cf.ThreadPoolExecutor(max_workers=self.jobs) as ex:
-            futs = []
-            for plan in self.plans():
-                futs.append(ex.submit(self.one, plan))
-            for f in cf.as_completed(futs):
-                results.append(f.result())
-        return results
+        return parallel_map(self.one, list(self.plans()), self.jobs)
 
 
 def relevant_violations(res, prop):
@@ -352,7 +421,7 @@ def cmd_check(prop, tier, seed, runs_override=None):
     bt = build()
     cfg = PROPS[prop]
     runs = runs_override or cfg["runs"][tier]
-    runner = Runner(prop, tier, seed, runs, JOBS)
+    runner = Runner(prop, tier, seed, runs, effective_jobs())
     results = runner.run_all()
     known = load_known()
     notes = []
@@ -515,9 +584,8 @@ def cmd_selftest(n_seeds=12, props=None, reps=3):
         shutil.rmtree(wd, ignore_errors=True)
         return (prop, seed), (gmp, r.get("status"), r.get("log_hash"), json.dumps(sorted(sig_of(v) for v in (r.get("violations") or []))))
 
-    with cf.ThreadPoolExecutor(max_workers=JOBS) as ex:
-        for k, v in ex.map(one, jobs):
-            res.setdefault(k, []).append(v)
+    for k, v in parallel_map(one, jobs, effective_jobs()):
+        res.setdefault(k, []).append(v)
     bad, soft = 0, 0
     for k, vs in sorted(res.items()):
         hashes = set((s, h, vi) for (_, s, h, vi) in vs)
@@ -578,7 +646,7 @@ def main():
         sys.exit(0)
     if a.survey:
         build()
-        runner = Runner(a.prop, a.tier, seed, a.runs or 200, JOBS)
+        runner = Runner(a.prop, a.tier, seed, a.runs or 200, effective_jobs())
         results = runner.run_all()
         cnt, ex, st = {}, {}, {}
         for r in results:
